@@ -1,5 +1,5 @@
 from .runner import scenario, sim_case
-from .workloads import Bus
+from .workloads import Bus, pick_chunks
 
 
 @scenario("bus")
@@ -129,4 +129,89 @@ def slowsub(case, res):
         S.check_idle_baseline(st)
         S.shutdown()
         return S.ops[:10]
+    sim_case(case, res, body)
+
+
+@scenario("idless")
+def idless(case, res):
+    """add / remove / change sent WITHOUT a usable id (absent, null, true, object, array): nothing is answered, so the effect is
+    read back through `get` by a third connection after every step and compared with a reference map - a request that must be
+    refused (taken path, foreign or missing element, fetch-only, method) leaves everything as it was"""
+    import json as _json
+    from .model import jeq
+    prm = case.get("params", {})
+
+    def body(S, rng):
+        a = S.connect("a", rng.choice(["raw", "uds", "ws"]))
+        b = S.connect("b", rng.choice(["raw", "ws"]))
+        obs = S.connect("obs", "raw")
+        for c in (a, b):
+            if c.transport == "ws":
+                S.handshake(c)
+        obs.keep_log = True
+        ref = {}           # path -> (owner name, value or "<method>")
+        paths = ["i/1", "i/2", "i/m", "I/1", ""]
+        ODD = ["absent", None, True, False, {}, [], [1], {"id": 1}]
+
+        def send(c, method, params):
+            idv = rng.choice(ODD)
+            msg = {"method": method, "params": params}
+            if idv != "absent":
+                msg["id"] = idv
+            S._register(c, dict(msg), True)
+            S.send_payload(c, _json.dumps(msg).encode(), chunks=pick_chunks(rng))
+            S.ops.append([c.name, msg])
+            S.sig("idless", method, type(idv).__name__)
+
+        def readback(what):
+            q = S.request(obs, "get", {})
+            q.expect_override = "any"
+            S.settle()
+            got = [m for m in obs.msglog if isinstance(m, dict) and m.get("id") == q.idv and "result" in m]
+            if not got:
+                S.v("state/read-back-failed", what)
+                return
+            listed = {}
+            for e in got[0]["result"]:
+                if e.get("path") in listed:
+                    S.v("state/path-listed-twice", "%r after %s" % (e.get("path"), what))
+                listed[e.get("path")] = e.get("value", "<method>")
+            want = {p: v for p, (_o, v) in ref.items() if v != "<method>"}      # get lists states; methods only occupy their path
+            if set(listed) != set(want) or any(not jeq(listed[p], want[p]) for p in want if p in listed):
+                S.v("state/elements-differ-after-request-without-usable-id", "after %s: daemon %s, reference %s" % (what, _json.dumps(listed, sort_keys=True)[:200], _json.dumps(want, sort_keys=True)[:200]))
+                return False
+            return True
+        for step in range(prm.get("n_ops", 30)):
+            c = rng.choice([a, b])
+            pth = rng.choice(paths)
+            r = rng.random()
+            if r < 0.5:
+                val = rng.choice([step, "v%d" % step, {"k": step}, None])
+                pr = {"path": pth}
+                if val is not None:
+                    pr["value"] = val
+                send(c, "add", pr)
+                if pth not in ref:
+                    ref[pth] = (c.name, val if val is not None else "<method>")
+                what = "add %r by %s" % (pth, c.name)
+            elif r < 0.75:
+                send(c, "change", {"path": pth, "value": [step]})
+                if pth in ref and ref[pth][0] == c.name and ref[pth][1] != "<method>":
+                    ref[pth] = (c.name, [step])
+                what = "change %r by %s" % (pth, c.name)
+            else:
+                send(c, "remove", {"path": pth})
+                if pth in ref and ref[pth][0] == c.name:
+                    del ref[pth]
+                what = "remove %r by %s" % (pth, c.name)
+            S.settle()
+            if a.closed or b.closed:
+                S.v("conn/healthy-connection-dropped", "after %s" % what)
+                break
+            if readback(what) is False:
+                break
+        st = S.close_all()
+        S.check_idle_baseline(st)
+        S.shutdown()
+        return S.ops[:12]
     sim_case(case, res, body)
